@@ -119,6 +119,10 @@ def gen_case(rng, tier="quick"):
     if r < 0.004 and entries:
         # one entry with a long row-id array (lengths beyond 255 / 65535)
         entries[rng.randrange(len(entries))][1] = gen_rowids(rng, 0, huge="xl" if (tier == "thorough" and rng.random() < 0.1) else True)
+    elif r < 0.0045 and len(entries) >= 2:
+        # several big entries (payload beyond 4 MiB, more than one block of it)
+        for e in entries[:2]:
+            e[1] = {"range": [rng.choice((0, 5)), rng.choice((600000, 700000)), 1]}
     elif r < 0.006:
         # many entries (index lengths beyond 255 / 65535), each tiny
         n_many = rng.choice((256, 300, 65536, 66000))
@@ -682,6 +686,7 @@ def c12_big(case, stats, log):
         probe.close()
     idxs = sorted(set(range(min(ncalls, 30))) | set(range(max(0, ncalls - 10), ncalls)) | {rnd.randrange(ncalls) for _ in range(10)})
     live_faults(prop, case, full, idxs, rmode, stats, log)
+    syscall_faults(prop, case, full, rmode, stats, log, sample=24)
     stats.count("big_files")
     stats.maximum("max_file_len", n)
 
@@ -710,6 +715,52 @@ def live_faults(prop, case, full, call_indexes, rmode, stats, log):
                 stats.count("io_error_after_last_byte")
                 continue
             _must_reject(prop, survived, "live:%s:call%d" % (case["wmode"], j), rmode, stats, log, len(full))
+
+
+def syscall_faults(prop, case, full, rmode, stats, log, sample=None):
+    """The device fails at the j-th mutating SYSTEM CALL made around the file object (os.pwrite & co. reached
+    through catii.indxio's own `os`), for every j (or a sample).  Worker threads that save() may start are run
+    by the scheduler in a seeded random order, so "a later block lands before an earlier one" happens."""
+    import random
+
+    from .. import osproxy, sched
+
+    def run(fail_at, seed):
+        with disk.SimDisk(backing=BACKING[0]) as d:
+            fobj = d.writer("raw")
+            osproxy.PROXY.reset(fail_at)
+            try:
+                with sched.Session({"strategy": "rtc"}, rng=random.Random(seed)):
+                    with warnings.catch_warnings():
+                        warnings.simplefilter("ignore")
+                        catii_indxio().save(fobj, entries_dict(case), case["common"], U32)
+            except BaseException as e:  # noqa: B902
+                if isinstance(e, (KeyboardInterrupt, SystemExit, MemoryError)):
+                    raise
+            finally:
+                n = osproxy.PROXY.calls
+                fired = osproxy.PROXY.dead
+                osproxy.PROXY.reset(None)
+            try:
+                fobj._f.close()
+            except Exception:
+                pass
+            return n, fired, d.content()
+
+    ncalls, _, _ = run(None, 0)
+    if not ncalls:
+        return
+    stats.count("files_whose_save_made_system_calls_around_the_file_object")
+    idxs = range(ncalls) if sample is None else sorted(set(list(range(min(ncalls, sample))) + [ncalls - 1]))
+    for j in idxs:
+        for seed in (j, j + 7919):
+            _, fired, survived = run(j, seed)
+            if not fired:
+                continue
+            stats.count("fault_device_failure_at_system_call")
+            if survived == full:
+                continue
+            _must_reject(prop, survived, "syscall:%d:order%d" % (j, seed), rmode, stats, log, len(full))
 
 
 def c12_execute(case, stats, log, only=None):
@@ -778,6 +829,7 @@ def c12_execute(case, stats, log, only=None):
     #    whatever save did around the file object (pre-allocation, truncation, rewriting) is on the disk too
     if only is None or only["fault"] == "live":
         live_faults(prop, case, full, range(len(f.calls)), rmode, stats, log)
+        syscall_faults(prop, case, full, rmode, stats, log)
     # 3. the file is torn IN PLACE (same inode) after this very process loaded the complete copy and
     #    still holds what it loaded: "rewrite in place, crash" with a long-running reader
     if (only is None or only["fault"] == "inplace") and 16 < len(full) <= 4000:
